@@ -25,7 +25,7 @@ EXHAUSTIVE_PART = "every model state (79 per property x 9 object/property pairs;
 ASSUMPTIONS = ["vmon/ref/dictmodel.py states the attribute/alias rule"]
 MONITORS = ["bfs_step", "smchart_step", "random_step"]
 REQUIRED = ["both_spellings_present", "alias_only", "standard_empty_alias_set", "delete_absent", "pseudo_alias_not_honoured",
-            "smchart_refused_op"]
+            "smchart_refused_op", "same_pairs_in_another_insertion_order", "smchart_field_assigned_a_value_with_blanks_around_it"]
 
 # (object kind, attribute, second key).  Where the second key is an alias only for *another* class it must be inert.
 TARGETS = [
@@ -178,6 +178,12 @@ def compare_views(ctx, obj, m, attr, keys, label, extra):
     other = build(m.kind, m.items())
     if not (obj == other and other == obj) or (obj != other):
         problems.append(("equality with independently built object", False, True))
+    if len(m.d) >= 2:
+        # the same key/value pairs inserted in the opposite order are another mapping (insertion order is content)
+        rev = build(m.kind, list(reversed(m.items())))
+        ctx.feat("same_pairs_in_another_insertion_order")
+        if obj == rev or rev == obj or not (obj != rev):
+            problems.append(("equality ignores insertion order", True, False))
     # serialization sees exactly the mapping's content
     if m.kind != "sscchart" or any(k in m.d for k in ("NOTES", "NOTES2")):
         try:
@@ -270,16 +276,21 @@ def check_smchart(ctx, case):
         if dict(c.items()) != model:
             probs.append(("items", list(c.items())))
         p = list(parse_msd(string=str(c)))
-        if not (len(p) == 1 and p[0].components[0] == "NOTES" and [x.strip() for x in p[0].components[1:7]] == list(model.values())):
+        # the serializer lays the fields out with its own indentation: blanks around a field are layout in the text
+        if not (len(p) == 1 and p[0].components[0] == "NOTES" and [x.strip() for x in p[0].components[1:7]] == [x.strip() for x in model.values()]):
             probs.append(("serialized", [tuple(q.components) for q in p]))
-        other = SMChart.from_msd(list(model.values()))
+        other = SMChart()
+        for kk in M.SIX:
+            other[kk] = model[kk]
         if not (c == other):
             probs.append(("equality", False))
         if probs:
             ctx.violation(f"smchart:{label}", dict(extra, problems=repr(probs)[:600]))
 
     for i, (a, k) in enumerate(zip(attrs, M.SIX)):
-        for v in VALUES + ["y z"]:
+        for v in VALUES + ["y z", " padded", "12\n", "\tx ", "  "]:
+            if v != v.strip():
+                ctx.feat("smchart_field_assigned_a_value_with_blanks_around_it")
             for how in ("attr", "key"):
                 ctx.mon("smchart_step")
                 c, model = fresh()
